@@ -95,7 +95,7 @@ def pyexpr(ts, prog, here=None):
         c = prog["classes"][body[1]]
         return c["qualname"] if here is not None and c["module"] == here else f'{c["module"]}.{c["qualname"]}'
     if tag == "lit":
-        return "typing.Literal[" + ", ".join(lit_expr(v) for v in body[1]) + "]"
+        return ("Literal[" if h.get("sp") == "bare" else "typing.Literal[") + ", ".join(lit_expr(v) for v in body[1]) + "]"
     if tag == "coll":
         inner = pyexpr(body[2], prog, here)
         if body[1] == "vartuple":
@@ -128,6 +128,7 @@ def pyexpr(ts, prog, here=None):
 
 PRELUDE = """from __future__ import annotations
 import collections, collections.abc, dataclasses, datetime, decimal, enum, fractions, pathlib, re, typing, uuid
+from typing import Literal
 """
 
 
@@ -304,7 +305,7 @@ class Program:
             exec(compile(src, f"<{m}>", "exec"), self.modules[m].__dict__)
         for a in prog.get("aliases", {}).values():
             exec(compile(alias_source(a, prog), f"<{a['module']}>", "exec"), self.modules[a["module"]].__dict__)
-        self.ns = {"typing": typing, "collections": collections, "datetime": datetime, "decimal": decimal,
+        self.ns = {"typing": typing, "Literal": typing.Literal, "collections": collections, "datetime": datetime, "decimal": decimal,
                    "fractions": fractions, "uuid": uuid, "pathlib": pathlib, "re": re, "enum": enum,
                    **self.modules}
         self.classes = []
